@@ -62,6 +62,17 @@ def build_series(ms, name=None):
     return pd.Series([np.nan if ms[d] is None else ms[d] for d in days], index=idx, dtype=float, name=name)
 
 
+def build_series_freq(ms, name=None):
+    """like build_series, but when the days form an arithmetic progression (>= 2 points) the index is a pd.date_range and carries a `freq`"""
+    days = sorted(ms)
+    if len(days) >= 2 and len(set(b - a for a, b in zip(days, days[1:]))) == 1:
+        step = days[1] - days[0]
+        idx = pd.date_range(day(days[0]), periods=len(days), freq='%dD' % step)
+        assert idx.freq is not None and [daynum(t) for t in idx] == days
+        return pd.Series([np.nan if ms[d] is None else ms[d] for d in days], index=idx, dtype=float, name=name)
+    return build_series(ms, name)
+
+
 def build_frame(mf):
     """mf: dict col -> model series (same day set)"""
     cols = list(mf)
